@@ -210,6 +210,13 @@ func (s *st) vector(kind, cls string, n int, maxAbs float64) *operand {
 	realOnly := s.cfg.CI || kind == "[]float64" || kind == "[]*big.Float"
 	vals := s.genVals(n, cls, maxAbs, realOnly)
 	o := &operand{kind: kind, cls: cls, vals: vals}
+	// arbitrary-precision operands: the values are exactly representable in 53 bits, so the precision the caller's
+	// big.Floats carry (53 bits as from big.NewFloat, or the working precision) must not matter
+	oprec := uint(oprec)
+	if (kind == "[]*big.Float" || kind == "[]*bignum.Complex") && s.rnd.N(2) == 0 {
+		oprec = 53
+		s.c.Count("vector_operands_of_53_bit_big_floats", 1)
+	}
 	switch kind {
 	case "[]complex128":
 		v := make([]complex128, n)
